@@ -148,6 +148,9 @@ def gather(tier: str, seed: int, want: Callable[[Model, gen.Unit, str, corpus.De
                 if not kinds:
                     continue
                 cls = mdl.cost_class(t)
+                if cls == 'heavy' and tier == 'quick':
+                    info.setdefault('heavy_left_to_thorough', []).append(f'{u.desc_id}/{t}')
+                    continue
                 L = input_bound(mdl, t, tier, cls)
                 if L is None:
                     info['beyond_cap'].append(f'{u.desc_id}/{t}')
@@ -208,15 +211,21 @@ def _write_and_run(shard: int, items: List[KItem], prop: str, harness_timeout: i
 def run_items(items: List[KItem], prop: str, harness_timeout=150, tag='s') -> Dict[int, str]:
     """distribute over shards (own crate + own target dir), run concurrently"""
     shards: List[List[KItem]] = [[] for _ in range(N_SHARDS)]
-    order = sorted(items, key=lambda i: ({'heavy': 0, 'medium': 1, 'cheap': 2}[i.cls], i.mod))
-    # keep a module's harnesses together; balance by count
-    by_mod: Dict[str, List[KItem]] = {}
-    for it in order:
-        by_mod.setdefault(it.mod, []).append(it)
-    for mod, its in sorted(by_mod.items(), key=lambda kv: -len(kv[1])):
-        min(shards, key=len).extend(its)
+    # longest-processing-time-first by estimated cost; a module may be split over shards
+    weight = {'heavy': 10, 'medium': 4, 'cheap': 1}
+    load = [0] * N_SHARDS
+
+    def cost(it):
+        w = weight[it.cls]
+        if it.kind in ('c02', 'c06d', 'c06v', 'c18d', 'c18e'):
+            w *= 2
+        return w
+    for it in sorted(items, key=lambda i: (-cost(i), i.key)):
+        k = min(range(N_SHARDS), key=lambda j: load[j])
+        shards[k].append(it)
+        load[k] += cost(it)
     used = [(i, s) for i, s in enumerate(shards) if s]
-    jobs = max(1, int(os.environ.get('VERIF_KANI_JOBS', '16')) // max(1, len(used)))
+    jobs = max(1, int(os.environ.get('VERIF_KANI_JOBS', '8')) // max(1, len(used)))
     crates = {}
     errors = []
 
@@ -269,7 +278,7 @@ def run_and_judge(prop: str, tier: str, seed: int, items: List[KItem], info: dic
     """run the harnesses; attribute failed checks to this property; replay; fill `out`;
     returns the coverage dict for the evidence file"""
     t0 = time.time()
-    harness_timeout = harness_timeout or (120 if tier == 'quick' else 400)
+    harness_timeout = harness_timeout or (180 if tier == 'quick' else 600)
     crates, errors = run_items(items, prop, harness_timeout)
     for i, tail in errors:
         out.inconclusive_item(f'harness crate shard {i} did not build/run: {tail[-700:]}')
@@ -405,6 +414,7 @@ def run_and_judge(prop: str, tier: str, seed: int, items: List[KItem], info: dic
     cov['discharged'] = cov['held']
     cov['engine'] = 'E-KANI: kani 0.68 / CBMC 6.11 / CaDiCaL over generated Rust + pdl-runtime + bytes'
     cov['selection'] = {k: info[k] if not isinstance(info[k], (list, dict)) else len(info[k]) for k in info}
+    cov['heavy_left_to_thorough'] = info.get('heavy_left_to_thorough', [])[:30]
     cov['gen_failed_known'] = sorted(set(info['gen_failed_known'].values()))
     cov['beyond_cap'] = info['beyond_cap'][:40]
     cov['known_findings_observed'] = sorted(out.known_hit)
